@@ -4,6 +4,7 @@ From Coq Require Import String List.
 
 (* nargs=None (exactly one value) | nargs="?" (optional value) *)
 Inductive nargs := N1 | NOpt.
-(* the destination list of an [append] action; every other destination is unobserved *)
-Inductive dest := DDef | DPath | DFile | DIgn.
+(* the destination list of an [append] action (DPath = include_paths, DSys = system_include_paths);
+   every other destination is unobserved *)
+Inductive dest := DDef | DPath | DSys | DFile | DIgn.
 Record optdef := { ostrs : list string; onargs : nargs; odest : dest }.
